@@ -13,7 +13,7 @@ import (
 )
 
 var c20Names = []string{"start", "a", "b"}
-var c20Targets = []string{"start", "a", "b", "gone", "", "@v"}
+var c20Targets = []string{"start", "zeta", "a", "gone", "", "@v"}
 
 func c20Action(name string) (core.Action, *core.ActionSource) {
 	native := &core.FuncAction{F: func(ctx context.Context, bs match.Bindings, p core.StepProps) (*core.Execution, error) {
@@ -36,6 +36,8 @@ func c20Action(name string) (core.Action, *core.ActionSource) {
 // that the product stays explorable (thorough: a third node).
 func c20Spec() *core.Spec {
 	s := &core.Spec{Name: "c20", Nodes: map[string]*core.Node{}}
+	// the general node is called "start" or not (a spec need not have a start node)
+	first := []string{"start", "zeta"}[verif.Choose("first", 2)]
 	n := &core.Node{}
 	n.Action, n.ActionSource = c20Action("start.action")
 	switch verif.Choose("start.branching", 3) {
@@ -55,7 +57,7 @@ func c20Spec() *core.Spec {
 			n.Branches.Branches = append(n.Branches.Branches, b)
 		}
 	}
-	s.Nodes["start"] = n
+	s.Nodes[first] = n
 	extra := []string{"a"}
 	if verif.Tier() > 0 {
 		extra = []string{"a", "b"}
@@ -66,7 +68,7 @@ func c20Spec() *core.Spec {
 		case 1:
 			s.Nodes[name] = &core.Node{}
 		case 2:
-			s.Nodes[name] = &core.Node{Branches: &core.Branches{Type: "message", Branches: []*core.Branch{{Target: "start"}}}}
+			s.Nodes[name] = &core.Node{Branches: &core.Branches{Type: "message", Branches: []*core.Branch{{Target: first}}}}
 		case 3:
 			nn := &core.Node{Branches: &core.Branches{Branches: []*core.Branch{{Target: "gone", GuardSource: &core.ActionSource{Interpreter: "other", Source: "return null;"}}}}}
 			nn.Action, nn.ActionSource = c20Action(name + ".action")
